@@ -440,7 +440,14 @@ type Acct struct {
 
 func acctPID(cfg *Config, n int) (pid, email string) {
 	email = fmt.Sprintf("u%d@x.co", n)
+	if cfg.OddPIDs {
+		email = []string{"u;%d@x.co", "semi;;colon%d@x.co", ";%d@x.co", "u%d;@x.co"}[n%4]
+		email = fmt.Sprintf(email, n)
+	}
 	if cfg.UseUsername {
+		if cfg.OddPIDs {
+			return fmt.Sprintf("us;er%d", n), email
+		}
 		return fmt.Sprintf("user%d", n), email
 	}
 	return email, email
